@@ -106,7 +106,7 @@ def deep(tr, emissions: int = 0) -> dict:
         # exact order of the lookup lists: compared only around read-only operations (C16);
         # accepted edits and rollbacks legitimately re-order them
         "lookup_order": None if ta is None else ({k: list(v) for k, v in ta.tracklet_id_to_nodes.items()}, {k: list(v) for k, v in ta.lineage_id_to_nodes.items()}),
-        "lookup_keys": None if ta is None else (sorted(ta.tracklet_id_to_nodes, key=repr), sorted(ta.lineage_id_to_nodes, key=repr)),
+        "lookup_keys": None if ta is None else (sorted((norm(k) for k in ta.tracklet_id_to_nodes), key=repr), sorted((norm(k) for k in ta.lineage_id_to_nodes), key=repr)),
         "undo": tuple(id(a) for a in tr.action_history.undo_stack),
         "redo": tuple(id(a) for a in tr.action_history.redo_stack),
         "emissions": emissions,
